@@ -102,4 +102,15 @@ def vyProduct : List Int → Int
 /-- `sorted(l)` (delegated to Python; here: merge sort) -/
 def vySort (l : List Int) : List Int := l.mergeSort (fun a b => decide (a ≤ b))
 
+/-- `ṗ` (powerset): `prev_sets = [[]]; yield []; for elem: new = [p + [elem] for p in prev_sets]; prev_sets += new; yield from new` —
+    what is yielded is exactly `prev_sets` at the end -/
+def powerset (l : List Int) : List (List Int) := l.foldl (fun ps e => ps ++ ps.map (· ++ [e])) [[]]
+
+/-- `Ṗ` (`itertools.permutations(l, len(l))`): by position, lexicographic in the positions -/
+def permsFuel : Nat → List Int → List (List Int)
+  | 0, _ => [[]]
+  | n + 1, l => (List.range l.length).flatMap (fun i => (permsFuel n (l.eraseIdx i)).map (fun p => l.getD i 0 :: p))
+
+def permutations (l : List Int) : List (List Int) := permsFuel l.length l
+
 end Ls
